@@ -68,6 +68,10 @@ def run_variant(args):
             if r.returncode != 0:
                 return (prop, kind, name, 'skipped',
                         'patch does not apply: ' + r.stdout[:200])
+        if kind == 'gtwin':
+            from .twins import GLOBAL_TWINS
+            GLOBAL_TWINS[name.split('/')[-1]](tmp)
+            kind = 'twin'
         for rel, old, new in edits or []:
             p = os.path.join(tmp, rel)
             if not os.path.exists(p):
@@ -107,6 +111,9 @@ def variants_for(prop):
     out = []
     for kind, name, edits in VARIANTS.get(prop, []):
         out.append((kind, name, edits, None))
+    from .twins import GLOBAL_TWINS
+    for g in GLOBAL_TWINS:
+        out.append(('gtwin', 'global/' + g, None, None))
     sd = os.path.join(VERIF, 'seeded')
     if os.path.isdir(sd):
         for d in sorted(os.listdir(sd)):
